@@ -125,3 +125,57 @@ Definition gcase_model_ok (c : gcase) : bool :=
   list_str_eqb (go_writes (g_meth c) (g_resp c)) (g_writes c) &&
   list_bool_eqb (flush_flags (g_pats c) (g_writes c)) (g_flags c) &&
   Bool.eqb (negb (go_write_ok (g_meth c) (g_resp c))) (g_err c).
+
+(* ---------------------------------------------------------------- (e) end to end through the real proxy *)
+(* what the client must observe, derived from the origin's script alone *)
+Record xexp := { x_code : N; x_fields : list (str * list str); x_body : str; x_trailers : list (str * list str) }.
+Record exch := {
+  e_req : req;
+  e_snap : resp;            (* the *http.Response as the innermost response modifier saw it (header before the
+                               hop-by-hop modifier ran); r_body = the chunks the client saw, or the whole body;
+                               r_trailer = declared keys with the values the origin sent *)
+  e_order : list str;       (* order of the keys in a Trailer line written by the header-only writer *)
+  e_exp : xexp }.
+Record ecase := {
+  e_v11 : bool;             (* the client speaks HTTP/1.1 *)
+  e_want : N;               (* number of exchanges the client wanted to perform on the connection *)
+  e_exchs : list exch;      (* the exchanges whose response arrived completely *)
+  e_stream : str;           (* every byte the client received on the connection *)
+  e_closed : bool }.        (* the proxy closed the connection *)
+
+Definition exch_resp (e : exch) : resp := set_hdr (e_snap e) (remove_hop_by_hop (r_hdr (e_snap e))).
+Definition exch_wire (e : exch) : str := resp_wire false (e_req e) (exch_resp e) (e_order e).
+Fixpoint survive_ok (closed : bool) (want : N) (i : N) (es : list exch) : bool :=
+  match es with
+  | [] => true
+  | [e] => (* last completed exchange: the connection is closed iff the model says so, unless it was the last wanted *)
+      if conn_survives false (e_req e) (exch_resp e) then (i + 1 =? want) || negb closed else closed
+  | e :: r => conn_survives false (e_req e) (exch_resp e) && survive_ok closed want (i + 1) r
+  end.
+Definition ecase_model_ok (c : ecase) : bool :=
+  str_eqb (concat (map exch_wire (e_exchs c))) (e_stream c) &&
+  survive_ok (e_closed c) (e_want c) 0 (e_exchs c).
+
+Definition values_match (got : list (str * str)) (want : str * list str) : bool :=
+  list_str_eqb (field_values (fst want) got) (snd want).
+Definition obs_matches (o : obs) (x : xexp) : bool :=
+  (o_code o =? x_code x) &&
+  forallb (values_match (o_fields o)) (x_fields x) &&
+  str_eqb (o_body o) (x_body x) &&
+  forallb (values_match (o_trailers o)) (x_trailers x).
+Fixpoint all_match (os : list obs) (es : list exch) : bool :=
+  match os, es with
+  | [], [] => true
+  | o :: os', e :: es' => obs_matches o (e_exp e) && all_match os' es'
+  | _, _ => false
+  end.
+(* oracle: the reference client, reading the connection, consumes exactly one response per
+   request, each is what the origin sent, nothing is left over, and every wanted exchange
+   was answered unless the proxy closed the connection *)
+Definition ecase_prop_ok (c : ecase) : bool :=
+  match client_parse_seq (e_v11 c) (map (fun e => q_method (e_req e)) (e_exchs c)) (e_stream c) with
+  | Some (os, rest) =>
+      negb (nonempty rest) && all_match os (e_exchs c) &&
+      ((N.of_nat (length (e_exchs c)) =? e_want c) || e_closed c)
+  | None => false
+  end.
